@@ -95,7 +95,7 @@ def run(F, R):
     for b in senders:
         s3_send(F, R, M, b, roles, rxq)
     s5_trait_writers(F, R, set(x['id'] for x in senders))
-    s7_reader_arithmetic(F, R, usz)
+    s7_reader_arithmetic(F, R, usz, list(bufs)[0] if len(bufs) == 1 else None, set(x['id'] for x in posters + finishers))
     from .C19 import q6_no_access_after_post
     q6_no_access_after_post(F, R, M, roles, rule='S6', only=lambda bb: bb.get('impl_adt') == DRV or DRV in (bb.get('impl_self') or ''))
 
@@ -318,19 +318,26 @@ def s3_send(F, R, M, b, roles, rxq):
                     len(ins) if ins is not None else None, len(outs) if outs is not None else None, q, src_ok))
 
 
-def s7_reader_arithmetic(F, R, usz):
+def s7_reader_arithmetic(F, R, usz, bf, helper_ids):
+    if bf is None:
+        raise Undecided('receive buffer field of the console not identified')
+
+    def on_buf(t):
+        return any(x[0] == 'loc' and any(pp[0] == 'f' and pp[1] == bf for pp in x[2]) for x in subterms(t))
     cf = cursor_field(F, usz)
     if cf is None:
         raise Undecided('cursor field of the console not identified')
     pf = [u for u in usz if u != cf][0]
-    helpers = ('wait_for_receive', 'poll_retrieve', 'finish_receive')
+    # queue-facing helpers (they post / finish the receive buffer, or wait in a loop) are opaque events here
+    def is_helper(bb):
+        return bb['id'] in helper_ids or has_loop(bb)
     nread = 0
     for b in F.bodies.values():
         if not F.handwritten(b) or not (b.get('impl_adt') == DRV or DRV in (b.get('impl_self') or '')) or b['kind'] != 'AssocFn':
             continue
-        if b['name'] in helpers or has_loop(b):
+        if is_helper(b):
             continue
-        sg = supergraph(F, b['id'], opaque=lambda t, bb: has_loop(bb) or bb['name'] in helpers, tag='s7')
+        sg = supergraph(F, b['id'], opaque=lambda t, bb: is_helper(bb), tag='s7')
         where = fn_site(F, b['id'])
         try:
             paths = PathEnum(sg).run()
@@ -342,7 +349,7 @@ def s7_reader_arithmetic(F, R, usz):
             for e in p.effects:
                 if e[0] == 'store' and e[2][2] and e[2][2][-1][0] == 'f' and e[2][2][-1][1] == cf:
                     touches = True
-            if p.ret is not None and cf in fmt(p.ret) and 'queue_buf' in fmt(p.ret):
+            if p.ret is not None and cf in fmt(p.ret) and on_buf(p.ret):
                 touches = True
         if not touches or b['name'] in ('new',):
             continue
@@ -365,7 +372,7 @@ def s7_reader_arithmetic(F, R, usz):
                                 return L
                             if t[0] == 'call' and t[2].endswith('::is_empty'):
                                 return int(L == 0)
-                            if t[0] == 'discr' and t[1][0] == 'call' and any(t[1][2].endswith('::' + h) for h in helpers):
+                            if t[0] == 'discr' and t[1][0] == 'call' and t[1][2] in F.bodies and is_helper(F.bodies[t[1][2]]):
                                 return 0
                             if t[0] == 'param':
                                 ty = ptys[t[1] - 1] if t[1] - 1 < len(ptys) else ''
@@ -389,7 +396,7 @@ def s7_reader_arithmetic(F, R, usz):
                             # ranges of the receive buffer exposed on this path
                             exposed = []
                             for e in p.effects:
-                                if e[0] == 'call' and (e[2].endswith('Index::index') or e[2].endswith('IndexMut::index_mut')) and 'queue_buf' in fmt(e[3][0]):
+                                if e[0] == 'call' and (e[2].endswith('Index::index') or e[2].endswith('IndexMut::index_mut')) and on_buf(e[3][0]):
                                     r = e[3][1]
                                     if r[0] == 'agg' and 'Range' in r[1]:
                                         vals = [fo.ev(x) for x in r[2]]
@@ -402,7 +409,7 @@ def s7_reader_arithmetic(F, R, usz):
                             byte_at = None
                             if p.ret is not None:
                                 for x in subterms(p.ret):
-                                    if x[0] in ('load0', 'load') and 'queue_buf' in fmt(x) and x[1][2] and x[1][2][-1][0] == 'idx':
+                                    if x[0] in ('load0', 'load') and on_buf(x) and x[1][2] and x[1][2][-1][0] == 'idx':
                                         byte_at = fo.ev(x[1][2][-1][1])
                         except Unfoldable as e:
                             bad = 'unfoldable: %s' % e
